@@ -794,10 +794,23 @@ def cmd_call_args(req):
     out["log_construct"] = _scalar_log()
     client = make_client(handler)
     fn = getattr(client, req["method"])
+    is_sub = inspect.isasyncgenfunction(fn)
+    if is_sub:
+        # subscription: a scripted graphql-transport-ws connection (ack, complete) that records the subscribe
+        # payload; its query / operationName / variables land in `captured` exactly like an HTTP request's
+        req.setdefault("events", 0)
+        _patch_ws(client, req, {}, captured)
     try:
-        r = fn(**args)
-        if inspect.iscoroutine(r):
-            r = asyncio.run(r)
+        if is_sub:
+            async def consume():
+                return [x async for x in fn(**args)]
+
+            r = asyncio.run(consume())
+            captured["has_variables"] = "variables" in (captured.get("keys") or [])
+        else:
+            r = fn(**args)
+            if inspect.iscoroutine(r):
+                r = asyncio.run(r)
         if req.get("dump_result"):
             out["result_repr"] = _result_repr(r)
     except BaseException as exc:  # noqa
